@@ -39,9 +39,11 @@ pub enum Deco {
     ExtObsText,
     /// twenty leading zeros: more hex digits than a 64-bit size has
     ManyZeros,
+    /// an extension that makes the size line exactly 128 bytes long, CRLF included (the longest accepted)
+    Line128,
 }
 
-pub const ALL_DECOS: [Deco; 8] = [
+pub const ALL_DECOS: [Deco; 9] = [
     Deco::Plain,
     Deco::Upper,
     Deco::LeadingZeros,
@@ -50,6 +52,7 @@ pub const ALL_DECOS: [Deco; 8] = [
     Deco::SpaceBeforeCrlf,
     Deco::ExtObsText,
     Deco::ManyZeros,
+    Deco::Line128,
 ];
 
 pub fn size_line(n: usize, deco: Deco) -> Vec<u8> {
@@ -57,6 +60,14 @@ pub fn size_line(n: usize, deco: Deco) -> Vec<u8> {
         let mut v = format!("{n:x};note=\"caf").into_bytes();
         v.extend_from_slice(b"\xe9 \x80\xff\"\r\n");
         return v;
+    }
+    if deco == Deco::Line128 {
+        let mut s = format!("{n:x};pad=");
+        while s.len() < 126 {
+            s.push('p');
+        }
+        s.push_str("\r\n");
+        return s.into_bytes();
     }
     let s = match deco {
         Deco::Plain => format!("{n:x}\r\n"),
@@ -66,7 +77,7 @@ pub fn size_line(n: usize, deco: Deco) -> Vec<u8> {
         Deco::Ext => format!("{n:x};ext\r\n"),
         Deco::ExtVal => format!("{n:x};ext=val;b=\"q\"\r\n"),
         Deco::SpaceBeforeCrlf => format!("{n:x} \r\n"),
-        Deco::ExtObsText => unreachable!(),
+        Deco::ExtObsText | Deco::Line128 => unreachable!(),
     };
     s.into_bytes()
 }
